@@ -1677,8 +1677,9 @@ def m_str_scan_sym(ex, a, m):
     for i in hits: pieces.append(chars[start:i]); start = i + 1
     pieces.append(chars[start:])
     if op in ('lines', 'split_terminator'):
-        if not pieces[-1]: pieces.pop()
-        if op == 'lines': pieces = [p[:-1] if (p and is_ch(ex, p[-1], '\r')) else p for p in pieces]
+        terminated = [True] * (len(pieces) - 1) + [False]           # every piece but the last was ended by the pattern
+        if not pieces[-1]: pieces.pop(); terminated.pop()
+        if op == 'lines': pieces = [p[:-1] if (t_ and p and is_ch(ex, p[-1], '\r')) else p for p, t_ in zip(pieces, terminated)]
     if op == 'rsplit': pieces = pieces[::-1]
     return IterV(iter([mk(p) for p in pieces]))
 
@@ -1760,3 +1761,36 @@ def m_sj_to_string(ex, a, m):
     try: t = _ser_value(ex, a[0], JsonSerV('text'))
     except JsonSerErr as e: return e.r
     return ok(StrV(tree_text(ex, t)))
+
+# ------------------------------------------------------------------------------------------ thread_local!: one thread per path, storage persistent on the path
+@model_rx(r'^(?:std::thread::)?LocalKey::new$')
+def m_localkey_new(ex, a, m): return Agg('struct', 'LocalKey', None, [Cell(Opaque(('tls', (ex.cur_fn or '').split('::')[-1])))])
+@model_rx(r'^(?:std::thread::)?LocalKey::(with|try_with|set|get|take|replace|with_borrow|with_borrow_mut)$')
+def m_localkey_with(ex, a, m):
+    key = deref_all(a[0]); name = key.fields[0].v.tag[1]
+    tls = ex.__dict__.setdefault('tls', {})
+    if name not in tls:
+        init = ex.prog.fns.get('__rust_std_internal_init_fn@' + name)
+        if init is None: raise Unsupported(f'thread_local {name}: initialiser not found')
+        tls[name] = Cell(ex.run_fn(init, []))
+    cell = tls[name]; op = m.group(1)
+    if op == 'with': return ex.call_value(a[1], [Ptr(cell, 'ref')])
+    if op == 'try_with': return ok(ex.call_value(a[1], [Ptr(cell, 'ref')]))
+    inner = cell.v.fields[0] if isinstance(cell.v, Agg) and cell.v.ty in ('Cell', 'RefCell') else None
+    if inner is None: raise Unsupported('LocalKey::' + op + ' on a non-cell')
+    if op == 'set': inner.v = a[1]; return UNIT
+    if op == 'get': return inner.v
+    if op == 'replace': old = inner.v; inner.v = a[1]; return old
+    if op in ('with_borrow', 'with_borrow_mut'): return ex.call_value(a[1], [Ptr(inner, 'ref')])
+    raise Unsupported('LocalKey::' + op)
+
+@model_rx(r'^(std::option::)?Option::Some$')
+def m_some_ctor(ex, a, m): return some(a[0])
+@model_rx(r'^(std::result::)?Result::(Ok|Err)$')
+def m_result_ctor(ex, a, m): return ok(a[0]) if m.group(2) == 'Ok' else err(a[0])
+@model('<serde_json::Number as Clone>::clone')
+def m_number_clone(ex, a): return deref_all(a[0])
+@model_rx(r'^<serde_json::Number as (?:serde::)?(?:de::)?Deserializer(?:<.*>)?>::deserialize_any$')
+def m_number_deserialize_any(ex, a, m):
+    n = a[0]; k = {'pos': 'u64', 'neg': 'i64', 'float': 'f64'}[n.kind]
+    return ex.call(f'<V as Visitor>::visit_{k}', [a[1], n.val])
